@@ -20,6 +20,8 @@ CHECKS = {
          "dims <= 4; oracle composed from the geometry's own maps (their correctness is C13)"),
  'C13': ("for every listed geometry, size, number of modes/steps and projection: fun2par(par2fun(p)) = p, projection idempotent, maps act column-wise on 2-3 column batches, reported shapes equal produced shapes, Samples/CUQIarray conversions agree with per-sample maps and round-trip, StepExpansion nodes partitioned and mapped to the documented step, KL expansion equals the documented sine series - all for ALL parameter vectors / function values",
          "dst/idst as validated linear-kernel stubs (tolerance 1e-9 over |p|<=64); StepExpansion grids from an enumerated concrete family (membership uses float comparisons that are not quantified over)"),
+ 'C14': ("with the WHOLE random stream symbolic (every draw a fresh symbol, both runs of a pair consuming one stream), symbolic initial point and uninterpreted target, for MH, CWMH, PCN, MALA, ULA (stateful interface): sample(N);sample(M) == sample(N+M) (every split of N+M<=3/4, with/without warm-up), a run checkpointed after every step 0..N+M (get_state/set_state and the pickle file) and resumed in a freshly constructed sampler continues with exactly the same transitions and final state, recorded length, callback exactly once per state with its index, stored entries never altered, reinitialize() restores the constructed configuration; legacy MH/CWMH/pCN/MALA/ULA: length N, chain starts with x0, burn-in keeps the last N of N+Nb, callback once per transition, sample_adapt likewise",
+         "N+M <= 3 (quick) / 4; uniform draws in (0,1) (u=0 is decided in C02); longer runs follow by induction on the state equality at the split (stated, not proved); NUTS/RTO/UGLA/Gibbs chains are covered by the C08/C06/C09 harnesses' own continuity obligations where present"),
  'C19': ("every stored value a distinct symbol: burnthin(Nb,Nt) for ALL 0<=Nb<=Ns+1, 1<=Nt<=Ns+1 (Ns<=5/6, dims 1-3, 2-D function values, joint sets, chained calls) returns exactly columns b, b+t, ... with flags/geometry, refuses Nb>=Ns and leaves the source untouched; mean/variance/std/median/credible bounds equal the per-coordinate definitions for ALL values (lo<=median<=hi, width = hi-lo); statistics of function-value samples are those of the converted samples; arviz receives each variable's chain unpermuted",
          "numpy.median/percentile replaced by their order-statistic definition (min/max terms); arviz replaced by a recorder"),
  'C20': ("exhaustive over sizes (1D n=2..6/8, 2D up to 3x3/4x4), boundary conditions, orders 0-2 and spacings: operator rows equal reference stencils applied to a symbolic vector, 2D = documented Kronecker stacking, precision = D^T D, symmetric, x^T P x = |Dx|^2, null space exactly the one implied by the bc (both inclusions as SMT implications), GMRF rank / sqrtprec / log-determinant consistent with the precision",
